@@ -24,3 +24,4 @@ pub proof fn lemma_std_frame(old: Response, new: Response, req: Request)
         assert(base.push((Header::_LAST_MODIFIED_UNIX_EPOCH_NANOS@, v)) =~= base + extra);
     }
 }
+
